@@ -570,7 +570,8 @@ def run_c03(tier: str) -> int:
         "schemas": len(fam),
         "family": "verif.checks.cxx_checks.c03_family: every width class (thorough: 1..64) for u/i at an unaligned "
                   "offset, floats, enums of 1..8 bits, nested structs, fixed arrays, Optional, dynamic arrays, str, "
-                  "ids out of declaration order",
+                  "ids out of declaration order, rpc envelope structs of a service (<Payload>Input/Output with the 8+8 bit "
+                  "ServiceId/<Svc>MethodId header; ids 2/1 and 200/130)",
         "values": "Encode: all in-range values of each instance (length/presence patterns of verif.values); Decode: all "
                   "buffers of the canonical length for fixed-size shapes, canonical images of all values otherwise",
         "ir": "clang++-14 -std=c++17 -O1 IR of a generated harness TU including the generated fcp.h",
